@@ -128,7 +128,10 @@ def tree_spec(draw, git=None, max_nodes=22):
         cand = [d for d in alldirs if d.count("/") <= 1 and d.split("/")[0] not in ("LICENSES", ".reuse", ".hg", ".sl") and d != "subprojects"
                 and not any(part in (".hg", ".sl", "LICENSES", ".reuse") for part in d.split("/"))
                 and any(p.startswith(d + "/") and v[0] in ("text", "binary") for p, v in nodes.items())]
-        if cand and draw(st.integers(0, 2)) == 0:
+        meson = [d for d in cand if d.startswith("subprojects/")]
+        if meson and draw(st.booleans()):
+            submods.append(draw(st.sampled_from(meson)))
+        elif cand and draw(st.integers(0, 2)) == 0:
             submods.append(draw(st.sampled_from(cand)))
         spec["git"] = {"ignore": ignore, "tracked": tracked, "forced": forced, "submodules": submods}
     return spec
